@@ -193,6 +193,30 @@ def judge(seq, via):
     return None
 
 
+def judge_same_tick_recursion():
+    """a recursion: consecutive stack-data records that hold the SAME four words, the whole sample logged within one tick (every
+    record carries the same timestamp), through the two layers and as a dump file through the facade."""
+    import io
+    from mc import build as B
+    from pykdebugparser.pykdebugparser import PyKdebugParser
+    r, leaf, main_ = 0x2345, 0x1111, 0x3333
+    bad = []
+    for n, words in ((8, (r,) * 8), (13, (leaf, r, r, r) + (r,) * 8 + (main_, 0, 0, 0)), (6, (r,) * 12), (4, (0,) * 8)):
+        evs = [e._replace(timestamp=7) for e in sample_events(n, words)]
+        want = list(words)[:n]
+        try:
+            got = [[f[0] for f in x.frames] for x in CallstacksParser([], []).feed_generator(TracesParser(E.codes(), {}, {}).feed_generator(iter(evs)))]
+            blob = B.v2([], 0, [B.rec(7, tid=e.tid, debugid=e.debugid, data=e.data) for e in evs])
+            got2 = [[f[0] for f in x.frames] for x in PyKdebugParser().callstacks(io.BytesIO(blob), dict(E.codes()))]
+        except Exception as ex:
+            return [('callstacks-raised:' + type(ex).__name__, {'error': repr(ex)[:200]})]
+        for via, g in (('layers', got), ('facade', got2)):
+            if g != [want]:
+                bad.append(('callstack-frames-not-first-N-words:equal-records-on-one-tick', {'via': via, 'header_count': n, 'got': [[hex(x) for x in fr] for fr in g][:2], 'expected': [hex(x) for x in want]}))
+                return bad
+    return bad
+
+
 def judge_permutation(addr_uuid_set, perm, sample_idx):
     """announce a set of distinct images in order `perm`, then sample: result must not depend on the order."""
     evs = []
@@ -278,6 +302,9 @@ class C15(Check):
                         if bad:
                             acc.violation(bad[0], {'kind': 'hist', 'seq': list(seq), 'via': 'layers', 'readable': [str(ITEMS[i][:3]) for i in seq]}, bad[1])
         else:
+            for sig, detail in judge_same_tick_recursion():
+                acc.violation(sig, {'kind': 'same-tick'}, detail)
+            acc.case(nontrivial=True, transitions=40, state=h64('same-tick'))
             sets = []
             pool = [(a, 0) for a in ADDR] + [(0x2800, 1)]
             for n in range(1, 5):
@@ -297,6 +324,8 @@ class C15(Check):
             acc = Acc()
             self.run_shard(('deep', case['k']), acc)
             return [(sig, v['cases'][0][1]) for sig, v in acc.violations.items()]
+        if case['kind'] == 'same-tick':
+            return judge_same_tick_recursion()
         if case['kind'] == 'hist':
             bad = judge(tuple(case['seq']), case['via'])
             return [bad] if bad else []
